@@ -49,6 +49,9 @@ type c15Entry struct {
 type c15Mem struct {
 	m     map[string]c15Entry
 	loads map[string]int
+	// duringLoad, when set, runs once while the loader is being read (after the engine has looked into its cache): what
+	// another caller does in the meantime
+	duringLoad func()
 }
 
 func (l *c15Mem) Load(name string) (string, error) {
@@ -57,6 +60,10 @@ func (l *c15Mem) Load(name string) (string, error) {
 		return "", fmt.Errorf("%w: %s", twig.ErrTemplateNotFound, name)
 	}
 	l.loads[name]++
+	if f := l.duringLoad; f != nil {
+		l.duringLoad = nil
+		f()
+	}
 	return e.src, nil
 }
 func (l *c15Mem) Exists(name string) bool { _, ok := l.m[name]; return ok }
@@ -115,8 +122,58 @@ func c15Src(name string, ver int, where string, names []string) string {
 	return s
 }
 
+// meanwhile: a registration that completes while Load is reading the loaders (first load of a name, or reload of a stale
+// entry) is the most recent registration: it is what the name serves from then on, and the Load in flight returns either
+// what it read or the registration.
+func (p *c15) meanwhile(rec *core.Recorder, r *core.Rand) {
+	stale := r.Bool()
+	l := &c15TsMem{c15Mem{m: map[string]c15Entry{"aa": {"⟦aa#1@L0⟧", 10}}, loads: map[string]int{}}}
+	e := twig.New()
+	e.RegisterLoader(l)
+	e.SetAutoReload(r.Bool() || stale)
+	trace := fmt.Sprintf("stale=%v", stale)
+	if stale {
+		if out, err := e.Render("aa", nil); err != nil || out != "⟦aa#1@L0⟧" {
+			rec.Violate("cache-model", "meanwhile-first-render", fmt.Sprintf("first render gave %q %v", out, err), map[string]any{"trace": trace}, "")
+			return
+		}
+		l.m["aa"] = c15Entry{"⟦aa#2@L0⟧", 20}
+	}
+	cur := l.m["aa"].src
+	kind := r.Intn(3)
+	l.duringLoad = func() {
+		switch kind {
+		case 0:
+			e.RegisterString("aa", "⟦aa#9@REG⟧")
+		case 1:
+			if t, err := e.ParseTemplate("⟦aa#9@REG⟧"); err == nil {
+				e.RegisterTemplate("aa", t)
+			}
+		default:
+			e.RegisterCompiledTemplate(&twig.CompiledTemplate{Name: "aa", Source: "⟦aa#9@REG⟧", LastModified: 5})
+		}
+	}
+	rec.Eval("meanwhile", fmt.Sprintf("%v/%d/%v", stale, kind, e != nil), true)
+	rec.Count("registrations-during-a-load", 1)
+	out1, err1 := e.Render("aa", nil)
+	out2, err2 := e.Render("aa", nil)
+	cs := map[string]any{"trace": fmt.Sprintf("%s; registration kind %d during the load; render in flight gave %q, next render %q", trace, kind, out1, out2)}
+	if err1 != nil || (out1 != cur && out1 != "⟦aa#9@REG⟧") {
+		rec.Violate("cache-model", "meanwhile-inflight", fmt.Sprintf("the render whose load was overtaken by a registration gave %q (err=%v), want %q or the registered text", out1, err1, cur), cs, "")
+		return
+	}
+	if err2 != nil || out2 != "⟦aa#9@REG⟧" {
+		rec.Violate("cache-model", fmt.Sprintf("registration-lost-to-load-in-flight:stale=%v", stale),
+			fmt.Sprintf("a registration completed while a load of the same name was reading the loaders; afterwards the name serves %q (err=%v) instead of the registered text", out2, err2), cs, "")
+	}
+}
+
 func (p *c15) Run(rec *core.Recorder, seed uint64, idx int, tier string) {
 	twig.SetDebugWriter(io.Discard)
+	if idx%25 == 7 {
+		p.meanwhile(rec, core.NewRand("C15m", seed, idx))
+		return
+	}
 	r := core.NewRand("C15", seed, idx)
 	names := []string{"aa", "bb", "cc"}
 	useFS := idx%3 == 2
